@@ -42,9 +42,10 @@ CLAIMS = {
    text="PROVED (Props/C07): parseGo never panics for any token list and any Atoi (parseGo_total); every line built from grammar items in any order/combination yields exactly the left-to-right "
         "interpretation (parseGo_faithful, also for the real Atoi model: parseGo_faithful_real); unknown prefixes are skipped (removePrefixGarbage_spec). Tie: grammar-directed and mutated token lists compared on "
         "parameters and messages; expected parameters asserted independently on the Go side; sequential dialogues incl. unknown commands through the real handler (no panic) and the real binary.", ref='5/C07, 10.4'),
- 'C08': dict(cat='proof', tech='Lean 4 theorems on calculateTime as regenerated from the Go source text by go2lean (omega) + correspondence',
-   text="PROVED (Props/C08, C08b): budget < clock, budget <= clock-50, budget < movetime, independence of the opponent's clock/increment, no int64 overflow below 2^40 - on the model and, via the tie theorem "
-        "calculateTime_tie, on the definition regenerated from the source text on every run. Correspondence on a boundary grid and random values; the clauses also asserted on the Go side.", ref='5/C08, 10.6'),
+ 'C08': dict(cat='proof', tech='Lean 4 theorems on calculateTime as regenerated from the Go source text on every run (go2lean; generic unfold/split/omega script) + correspondence of the regenerated definition with the running function',
+   text="PROVED on every run about the definition that tools/go2lean regenerates from the text of calculateTime (Props/C08): budget < clock of the mover whenever it is known, budget < explicit movetime, both at once, "
+        "and independence of the opponent's clock and increment. The generic proof script re-proves property-preserving rewrites and fails on breaking ones. The regenerated definition is executed by the driver and compared with the "
+        "Go function on a boundary grid, random values and through the go-command path (parse, then budget); the clauses are also asserted on the Go side.", ref='5/C08, 10.6'),
  'C09': dict(cat='proof', tech='Lean 4 theorems for arbitrary key tables (incremental = from-scratch hash, path independence, single-component distinctness) + kernel check of the real keys + correspondence',
    text="PROVED (Props/C09): every primitive and MakeMove/null move/FEN load keep hash = from-scratch hash (makeMove_hash, makeNull_hash, parseFen_hash), equal components give equal hashes (hash_path_independent), "
         "positions differing in exactly one component hash differently given non-zero/distinct keys, and the 781 keys dumped from the running engine are pairwise distinct and non-zero (realKeys_distinct). "
